@@ -23,6 +23,7 @@ from sim import core, minimise
 
 NPROC = int(os.environ.get("VERIF_NPROC", "16"))
 MAX_REPORTED = 10
+DETERMINISM_UNITS = 12
 DIGEST_CAP = 6_000_000  # distinct-execution digests held in memory; beyond it counts are lower bounds
 BATCH_WATCHDOG_S = int(os.environ.get("VERIF_BATCH_WATCHDOG_S", "900"))
 
@@ -159,6 +160,28 @@ def confirm_fresh(path):
     return proc.returncode == 1 and "VIOLATION" in proc.stdout, proc
 
 
+def determinism_slice(mod, units):
+    """
+    Execute the same units in two fresh interpreters (PYTHONHASHSEED 0 and random, different
+    worker counts) and compare per-unit digests.  Returns (n_units, identical, error).
+    """
+    outs = []
+    for hs, nproc in (("0", "3"), ("random", "5")):
+        env = dict(os.environ)
+        env["PYTHONHASHSEED"] = hs
+        env["VERIF_NO_REEXEC"] = "1"
+        env["VERIF_NPROC"] = nproc
+        proc = subprocess.run(
+            [sys.executable, os.path.join(core.VERIF_DIR, "dst.py"), "digest", mod.PROPERTY],
+            input=json.dumps(units), capture_output=True, text=True, env=env, timeout=900, check=False,
+        )
+        line = [l for l in proc.stdout.splitlines() if l.startswith("UNITDIGESTS ")]
+        if proc.returncode != 0 or not line:
+            return len(units), False, f"digest child rc={proc.returncode}: {proc.stderr[-400:]}"
+        outs.append(json.loads(line[0][12:]))
+    return len(units), outs[0] == outs[1], None
+
+
 def load_known():
     path = os.path.join(core.VERIF_DIR, "known_findings.json")
     if not os.path.exists(path):
@@ -216,6 +239,7 @@ def run_check(mod, tier, base_seed, budget_s=None, quiet=False):
     known_hits, known_example = {}, {}
     n_batches = 0
     harness_error = None
+    slice_units = []
     ctx = multiprocessing.get_context("fork")
     with ProcessPoolExecutor(max_workers=NPROC, mp_context=ctx, initializer=_worker_init, initargs=(modname,)) as pool:
         pending = set()
@@ -234,6 +258,8 @@ def run_check(mod, tier, base_seed, budget_s=None, quiet=False):
                     except StopIteration:
                         exhausted = True
                         break
+                    if len(slice_units) < DETERMINISM_UNITS and n_batches % 3 == 0:
+                        slice_units.extend(batch[: max(1, DETERMINISM_UNITS // 4)])
                     pending.add(pool.submit(_run_batch, batch))
                     n_batches += 1
                 if not pending:
@@ -255,6 +281,14 @@ def run_check(mod, tier, base_seed, budget_s=None, quiet=False):
             harness_error = f"{type(err).__name__}: {err}"
             for fut in pending:
                 fut.cancel()
+    det = None
+    if slice_units and not os.environ.get("VERIF_SKIP_DETERMINISM"):
+        n_u, same, err = determinism_slice(mod, slice_units[:DETERMINISM_UNITS])
+        det = {"units": n_u, "interpreters": 2, "identical": bool(same)}
+        if err:
+            harness_error = harness_error or err
+        elif not same:
+            harness_error = harness_error or "determinism slice: per-unit digests differ between two fresh interpreters"
     wall = time.monotonic() - t0
 
     # ---- report violations: dedupe, write replay, confirm in a fresh interpreter
@@ -312,6 +346,8 @@ def run_check(mod, tier, base_seed, budget_s=None, quiet=False):
             "regressions_run": n_reg,
             "real_vs_stub": mod.REAL_VS_STUB,
             "workers": NPROC,
+            "seeds": {"VERIF_SEED": base_seed, "run_seed_formula": "VERIF_SEED * 100000007 + i", "scenarios": total.runs},
+            "determinism_checked": det,
         },
         "assumptions": mod.ASSUMPTIONS,
         "wall_s": round(wall, 2),
